@@ -87,13 +87,17 @@ import z3   # noqa: E402
 def main(tier, replay_payload=None):
     w_args = dict(pids=["a", "b"], contents=[b"x", b"0123456789ab"], formats=[None], sym_dirs=False)
     menu_fn = menu_for(tier)
+    from props import C02_xh
+    kf = lambda: C02_xh.kernels(tier)
     if replay_payload is not None:
-        return make_replayer(w_args, menu_fn)(replay_payload)
+        return make_replayer(w_args, menu_fn, kf)(replay_payload)
     run = report.Run("C02", tier, technique="pathsym inductive step with the instance's algorithm list in Inv; "
                      "structured symbolic spellings (algorithm x case mask x separator) chosen by the solver")
-    run.replayer = make_replayer(w_args, menu_fn)
+    run.replayer = make_replayer(w_args, menu_fn, kf)
     res = step.explore_steps(w_args, menu_fn)
     collect(run, res, MINE, w_args, menu_fn)
+    from engine import xh
+    xh.run_kernels(run, "C02", C02_xh.kernels(tier))
     run.functions = loader.function_lines(loader.load(), API_FUNCS + [
         "FileHashStore._refine_algorithm_list", "FileHashStore._clean_algorithm", "FileHashStore._computehash",
         "FileHashStore._check_arg_algorithms_and_checksum", "FileHashStore._set_default_algorithms"])
